@@ -15,10 +15,11 @@ from record import Recorder
 
 
 def run_history(seed, profile="general", n_bundles=20, invalid_prob=0.15, undo_prob=0.5,
-                tid=None, hooks=None):
+                tid=None, hooks=None, peer_every=5):
   rng = random.Random("hist-%s" % (seed,))
   gen = Gen("gen-%s" % (seed,), profile)
   rec = Recorder(tid=tid or "%s-%d" % (profile, seed))
+  rec.keep_states = bool(hooks and hooks.get("keep_states"))
   # The trace starts from the empty document; InitNewDoc is the first event.
   rec.state = {}
   rec.init_state = {}
@@ -27,7 +28,10 @@ def run_history(seed, profile="general", n_bundles=20, invalid_prob=0.15, undo_p
   rec.bundle([['InitNewDoc']], tag="init")
   live = []     # stack of (event index, undo action reprs)
 
-  for _ in range(n_bundles):
+  for step in range(n_bundles):
+    if peer_every and step % peer_every == peer_every - 1:
+      rec.reopen_event()
+      rec.rebuild_event()
     view = DocView(rec.eng)
     uas = gen.bundle(view, invalid_prob=invalid_prob)
     if hooks and hooks.get("before_bundle"):
@@ -64,3 +68,66 @@ def uas_note(uas):
         item.append(a)
     out.append(" ".join(item))
   return out
+
+
+POISON = ['RemoveRecord', 'NoSuchTable_verif_poison', 1]
+
+
+def run_fault_history(seed, profile="general", n_bundles=12, probe_prob=0.6, max_positions=10, tid=None):
+  """
+  C04 fault enumeration on a real history.  Before a sampled bundle is applied for real:
+    1. dry run: the bundle plus a poison action that fails last (a later action failing after earlier
+       ones succeeded) - counts the doc-action boundaries and rebuild_usercode calls of the bundle;
+    2. for each boundary position (all of them when <= max_positions, else a seeded sample): the same
+       bundle with InjectedFault armed before/after that doc action or inside that rebuild_usercode;
+  every failed call is followed by a Calculate.  Trace_Doc judges C04.unchanged / C04.schema /
+  C08.schema on the failed call and C04.quiet on the Calculate; since every probe must leave no
+  trace, the history continues exactly as if no probe had happened (C04.usable).
+  """
+  import faults    # pylint: disable=import-outside-toplevel
+  rng = random.Random("fault-%s" % (seed,))
+  gen = Gen("gen-%s" % (seed,), profile)
+  rec = Recorder(tid=tid or "fault-%s-%d" % (profile, seed))
+  rec.state, rec.init_state, rec.schema, rec.init_schema = {}, {}, {}, {}
+  rec.bundle([['InitNewDoc']], tag="init")
+  fw = faults.FaultWrapper(rec.eng)
+  probes = 0
+  for _ in range(n_bundles):
+    view = DocView(rec.eng)
+    uas = gen.bundle(view, invalid_prob=0.1)
+    note = uas_note(uas)
+    if rng.random() < probe_prob:
+      fw.reset()
+      rec.bundle(uas + [POISON], note=note + ["<poison>"])
+      n_act, n_reb = fw.n_actions, fw.n_rebuilds
+      rec.bundle([['Calculate']], tag="quiet", clause="C04.quiet")
+      positions = [("before", k) for k in range(1, n_act + 1)] + \
+                  [("after", k) for k in range(1, n_act + 1)] + \
+                  [("rebuild", k) for k in range(1, n_reb + 1)]
+      if len(positions) > max_positions:
+        positions = rng.sample(positions, max_positions)
+      for kind, k in positions:
+        fw.arm(kind, k)
+        ev, _, exc = rec.bundle(uas, note=note + ["<fault %s %d>" % (kind, k)])
+        ev["fault"] = [kind, k]
+        ev["fired"] = bool(fw.fired)
+        probes += 1
+        fw.reset()
+        if exc is not None:
+          rec.bundle([['Calculate']], tag="quiet", clause="C04.quiet")
+        else:
+          # the fault position was not reached (e.g. the bundle raised earlier on its own): the bundle
+          # was applied for real; go on with the next bundle
+          break
+      else:
+        fw.reset()
+        _, _, exc = rec.bundle(uas, note=note)
+        if exc is not None:
+          rec.bundle([['Calculate']], tag="quiet", clause="C04.quiet")
+    else:
+      fw.reset()
+      _, _, exc = rec.bundle(uas, note=note)
+      if exc is not None:
+        rec.bundle([['Calculate']], tag="quiet", clause="C04.quiet")
+  rec.n_probes = probes
+  return rec
